@@ -19,8 +19,9 @@ import OnetVerif.Model.C17
 import OnetVerif.Model.C18
 import OnetVerif.Model.C19
 import OnetVerif.Model.C20
+import OnetVerif.Model.TF
 /-! Line-protocol front end of the models: one operation per line on stdin, one observation per
-line on stdout.  `<cxx> <tokens…>` goes to that property's driver, `reset` re-initialises every
+line on stdout.  `<cxx> <tokens…>` goes to that property's driver, `tf <cxx> <function> <arguments>` to `Model/TF.lean`, `reset` re-initialises every
 driver, anything else is answered `bad-op` (never defaulted). -/
 
 structure All where
@@ -48,6 +49,7 @@ structure All where
 def stepLine (s : All) (line : String) : All × String :=
   match (line.trimAscii.toString.splitOn " ").filter (· ≠ "") with
   | ["reset"] => ({}, "ok")
+  | "tf" :: rest => (s, TF.step rest)   -- differential operations for the translated functions (stateless)
   | "c01" :: rest => let (t, o) := C01.Drv.step s.sC01 rest; ({ s with sC01 := t }, o)
   | "c02" :: rest => let (t, o) := C02.Drv.step s.sC02 rest; ({ s with sC02 := t }, o)
   | "c03" :: rest => let (t, o) := C03.Drv.step s.sC03 rest; ({ s with sC03 := t }, o)
